@@ -7,6 +7,7 @@ import (
 	"encoding/json"
 	"fmt"
 	"io"
+	"os"
 	"reflect"
 	"sort"
 	"strings"
@@ -92,6 +93,13 @@ func c15Mapping(m c15Map) *compose.FieldMapping {
 	return compose.MapFieldPaths(compose.FieldPath(m.From), compose.FieldPath(m.To))
 }
 
+// C15_DEBUG=1: print error / panic texts (never compared) while replaying a case
+func c15Debug(format string, args ...any) {
+	if os.Getenv("C15_DEBUG") != "" {
+		fmt.Fprintf(os.Stderr, "c15: "+format+"\n", args...)
+	}
+}
+
 func c15PanicClass(p any) string {
 	s := fmt.Sprint(p)
 	switch {
@@ -163,6 +171,7 @@ func c15RunT[T any](c *c15Case, vals []reflect.Value) *c15Impl {
 				out, err := r.Invoke(ctx, "x")
 				if err != nil {
 					run = c15Run{Class: "err"}
+					c15Debug("invoke error: %.400v", err)
 					return
 				}
 				run = c15Run{Class: "ok", Val: c15EncAny(out, rt)}
@@ -170,6 +179,7 @@ func c15RunT[T any](c *c15Case, vals []reflect.Value) *c15Impl {
 		})
 		if panicked {
 			run = c15Run{Class: "panic", Info: c15PanicClass(pv)}
+			c15Debug("invoke panic: %.300v", pv)
 		} else if !finished {
 			run = c15Run{Class: "hang"}
 		}
@@ -194,6 +204,7 @@ func c15RunT[T any](c *c15Case, vals []reflect.Value) *c15Impl {
 				sr, err := r.Stream(ctx, "x")
 				if err != nil {
 					run = c15Run{Class: "err"}
+					c15Debug("stream error: %.400v", err)
 					return
 				}
 				defer sr.Close()
@@ -204,6 +215,7 @@ func c15RunT[T any](c *c15Case, vals []reflect.Value) *c15Impl {
 					}
 					if err != nil {
 						run = c15Run{Class: "err"}
+						c15Debug("stream recv error: %.400v", err)
 						return
 					}
 					chunks = append(chunks, c15EncAny(out, rt))
@@ -213,6 +225,7 @@ func c15RunT[T any](c *c15Case, vals []reflect.Value) *c15Impl {
 		})
 		if panicked {
 			run = c15Run{Class: "panic", Info: c15PanicClass(pv)}
+			c15Debug("stream panic: %.300v", pv)
 		} else if !finished {
 			run = c15Run{Class: "hang"}
 		}
